@@ -318,8 +318,17 @@ class Program:
                 if not f.endswith(".rs"):
                     continue
                 txt = open(os.path.join(dp, f)).read()
-                for m in re.finditer(r"\benum\s+(\w+)(?:<[^>{]*>)?\s*(?:where[^{]*)?\{", txt):
-                    name = m.group(1)
+                for m0 in re.finditer(r"\benum\s+(\w+)\b", txt):
+                    name = m0.group(1)
+                    ob = txt.find("{", m0.end())
+                    semi = txt.find(";", m0.end())
+                    if ob < 0 or (0 <= semi < ob) or ob - m0.end() > 300:
+                        continue
+
+                    class _M:
+                        def end(self_inner):
+                            return ob + 1
+                    m = _M()
                     # find matching brace
                     i = m.end()
                     depth = 1
